@@ -59,6 +59,9 @@ def rotation_families(tier: str) -> Dict[str, Dict[str, Any]]:
                       "rulesets": ROT_CONDS},
         "rot-chain4": {"lens": (3, 4, 3, 5), "gaps": [0, C1, C2, FAR] if not wide else gaps,
                        "hits": [("a", "a", "a", "a")], "rulesets": ROT_SINGLE},
+        # rings shorter than twice the cutoff (the search window becomes the whole record)
+        "rot-tiny2": {"lens": (3, 3), "gaps": [0, 1, 2, 7, 8, 9, 10, 11, 12], "hits": [("a", "b")],
+                      "rulesets": [[_rule("r0", 8, 1, "a and b")], [_rule("r0", 8, 1, "a")]]},
     }
     return fams
 
@@ -94,7 +97,7 @@ def ring_bases(fam: Dict[str, Any]) -> Iterator[Dict[str, Any]]:
                     yield case
 
 
-PARTS = {"rot-chain3": 8, "rot-pair3": 12, "rot-sup3": 10, "rot-ext3": 8, "rot-cond3": 10, "rot-chain4": 10,
+PARTS = {"rot-tiny2": 1, "rot-chain3": 8, "rot-pair3": 12, "rot-sup3": 10, "rot-ext3": 8, "rot-cond3": 10, "rot-chain4": 10,
          "ord3": 10, "ord2": 2}
 
 
